@@ -282,6 +282,25 @@ def erase_plan(chk, r):
                   dict(op='pfree')], ['short', 'full', 'none', 'full']),
                 ([dict(op='pinit', arg=0, src='plain'), dict(op='pgen', arg=33), dict(op='pfree')], ['full'])]):
             G.append((fill, history_lines(r, f"e{fill}-p{pi}", ops, dels, obj=pi, ctl=1)))
+    # HMAC object reused: a long key (hashed down), then a short one, then free
+    g = []
+    for j, (k1, k2) in enumerate([(100, 5), (65, 64), (200, 0), (64, 130)]):
+        ka, kb = datav(r, k1), (datav(r, k2) if k2 else '-')
+        g += [f"hminit id=er-m{j}i obj={j} k={ka}", f"hmupdate id=er-m{j}u obj={j} d={datav(r, 7)}", f"hmfinal id=er-m{j}f obj={j} k={ka}",
+              f"hmreinit id=er-m{j}r obj={j} k={kb}", f"hmupdate id=er-m{j}v obj={j} d={datav(r, 20)}", f"hmfree id=er-m{j}x obj={j}"]
+    G.append((0x00, g))
+    G.append((0xFF, g))
+    # the state objects the all-in-one functions keep on their own stack (searched for in the dead stack afterwards)
+    g = []
+    for n in (0, 1, 15, 16, 17, 40, 100):
+        g.append(f"deadstate id=ds-h{n} kind=hash m={datav(r, n) if n else '-'}")
+    for kl, n in ((0, 5), (20, 0), (32, 33), (64, 16), (65, 7), (100, 40)):
+        g.append(f"deadstate id=ds-m{kl}-{n} kind=hmac key={datav(r, kl) if kl else '-'} m={datav(r, n) if n else '-'}")
+    for kl, sl, il, ln in ((16, 0, 0, 32), (5, 20, 3, 1), (32, 64, 10, 33), (40, 65, 129, 64), (7, 3, 0, 100)):
+        g.append(f"deadstate id=ds-k{ln} kind=hkdf key={datav(r, kl)} salt={datav(r, sl) if sl else '-'} info={datav(r, il) if il else '-'} len={ln}")
+    for kl, sl, ln in ((8, 8, 32), (70, 3, 20), (24, 40, 1)):
+        g.append(f"deadstate id=ds-p{kl} kind=pbkdf2 key={datav(r, kl)} salt={datav(r, sl)} len={ln}")
+    G.append((0xAA, g))
     # clean: every offset x size, canaries on both sides
     g = []
     for o in range(8):
@@ -318,7 +337,7 @@ def check_C20(chk):
             ev, err = run_driver(exe, lines, timeout=600)
             for e in ev:
                 e['id'] = f"{name}:{e.get('id')}"
-            nfree += sum(1 for e in ev if e.get('e') in ('HFree', 'HmFree', 'HkFree', 'PFree', 'Clean'))
+            nfree += sum(1 for e in ev if e.get('e') in ('HFree', 'HmFree', 'HkFree', 'PFree', 'Clean', 'DeadState'))
             judge_o(chk, 'TV_Obs', split_executions(ev), f"{name}: ")
             if len(chk.cov['samples']) < 3:
                 chk.sample([trim(e, 8) for e in ev if e.get('e') in ('HFree', 'PFree', 'Clean')][:3])
@@ -333,10 +352,12 @@ def check_C20(chk):
              "library never writes are visible; clean over every (offset 0..7, size 0..70, 255..257, 4096) with canaries on both "
              "sides; all built with gcc and clang at several optimisation levels with HAVE_EXPLICIT_BZERO defined and undefined "
              "(volatile fallback); TLC judges every event against TJMem!EraseOK (all sizeof(public state) bytes zero; exactly the "
-             "requested bytes zeroed); MC_HashStream carries FreeErases as an invariant of the object life cycle",
+             "requested bytes zeroed; nothing of an all-in-one function's own state object left in the dead stack); MC_HashStream "
+             "carries FreeErases as an invariant of the object life cycle",
         assumptions=["memset_s and SecureZeroMemory do not exist on this platform and are not exercised",
-                     "erasure is observed in the caller's memory after the call returns; scratch copies on the library's own "
-                     "stack are outside the property"])
+                     "erasure is observed in the caller's memory after the call returns, and for the state objects of the all-in-one "
+                     "functions in the dead stack (DeadState); other scratch values on the library's own stack (spilled "
+                     "permutation words) are outside the property"])
 
 
 # ----------------------------------------------------------------------------- C07
@@ -414,6 +435,11 @@ def check_C07(chk):
             ops = [dict(op='pinit', arg=5), dict(op='pgen', arg=32), dict(op='pgen', arg=1056), dict(op='pfeed', arg=9), dict(op='preseed'),
                    dict(op='plimit', arg=32), dict(op='pgen', arg=100), dict(op='preseed'), dict(op='pgen', arg=16)]
             lines.extend(history_lines(r, f"tr{pi}", ops, dels, obj=pi))
+        # the same through the library's built-in system source (NULL callback / tinyjambu_prng_init): what the OS delivers is secret
+        for pi, (src, dels) in enumerate([('null', ['full'] * 5), ('plain', ['full', 'full', 'none', 'full', 'full'])]):
+            ops = [dict(op='pinit', arg=0, src=src), dict(op='pgen', arg=40), dict(op='preseed'), dict(op='pgen', arg=1056), dict(op='pfeed', arg=3),
+                   dict(op='preseed'), dict(op='pgen', arg=16)]
+            lines.extend(history_lines(r, f"ts{pi}", ops, dels, obj=2 + pi))
         total_calls += len(lines)
         # units that must stay in one process: a PRNG history with its script; everything else is stateless
         units, cur = [], None
